@@ -256,6 +256,17 @@ func (p *rawPeer) snapshot() []wstanza {
 	return append([]wstanza(nil), p.log...)
 }
 
+// snapshotFrom copies the log from index from on (the log of a rig that serves
+// thousands of cases is long: never copy all of it per packet).
+func (p *rawPeer) snapshotFrom(from int) []wstanza {
+	p.mu.Lock()
+	defer p.mu.Unlock()
+	if from > len(p.log) {
+		from = len(p.log)
+	}
+	return append([]wstanza(nil), p.log[from:]...)
+}
+
 func (p *rawPeer) logLen() int {
 	p.mu.Lock()
 	defer p.mu.Unlock()
